@@ -18,6 +18,11 @@ use serde::{Deserialize, Serialize};
 #[derive(Serialize, Deserialize, Clone, Debug, PartialEq)]
 pub struct SmartQ {
     pub keys: Vec<Bytes>,
+    #[serde(default)]
+    pub scan: bool,
+    /// further contracts to forward the query to (nested smart queries)
+    #[serde(default)]
+    pub chain: Vec<String>,
 }
 
 pub fn smart_answer(addr: &str, height: u64, vals: &[Option<Vec<u8>>]) -> String {
@@ -31,9 +36,24 @@ pub fn smart_answer(addr: &str, height: u64, vals: &[Option<Vec<u8>>]) -> String
     format!("{}@{}:{}", addr, height, v.join(","))
 }
 
-fn run_query_entry(storage: &dyn Storage, env: &Env, q: &SmartQ) -> Binary {
+fn run_query_entry<Q: MakeCustomQuery>(storage: &dyn Storage, querier: &QuerierWrapper<Q>, env: &Env, q: &SmartQ) -> Binary {
     let vals: Vec<Option<Vec<u8>>> = q.keys.iter().map(|k| storage.get(k)).collect();
-    let s = smart_answer(env.contract.address.as_str(), env.block.height, &vals);
+    let mut s = smart_answer(env.contract.address.as_str(), env.block.height, &vals);
+    if q.scan {
+        let recs: Vec<_> = storage.range(None, None, Order::Ascending).collect();
+        s.push_str("|scan:");
+        s.push_str(&fmt_range(&recs));
+    }
+    if let Some(next) = q.chain.first() {
+        let rest = SmartQ { keys: q.keys.clone(), scan: q.scan, chain: q.chain[1..].to_vec() };
+        match querier.query_wasm_smart::<String>(next.clone(), &rest) {
+            Ok(a) => {
+                s.push_str("->");
+                s.push_str(&a);
+            }
+            Err(_) => s.push_str("->ERR"),
+        }
+    }
     Binary::new(serde_json::to_vec(&s).unwrap())
 }
 
@@ -79,9 +99,10 @@ fn answer_query<Q: MakeCustomQuery>(
                 None => "none".to_string(),
             })
         }
-        QueryOp::Smart { contract, keys } => {
+        QueryOp::Smart { contract, keys, scan, chain } => {
             let a = names.target(contract, self_addr);
-            r(querier.query_wasm_smart::<String>(a, &SmartQ { keys: keys.clone() }), |s| s)
+            let chain: Vec<String> = chain.iter().map(|t| names.target(t, self_addr)).collect();
+            r(querier.query_wasm_smart::<String>(a, &SmartQ { keys: keys.clone(), scan: *scan, chain }), |s| s)
         }
         QueryOp::ContractInfo { contract } => {
             let a = names.target(contract, self_addr);
@@ -169,10 +190,8 @@ pub fn run_node<C: MakeCustom, Q: MakeCustomQuery>(
 
     // 1. scripted queries, 2. scripted reads of own storage
     let queries: Vec<String> = node.queries.iter().map(|q| answer_query(&names, &self_addr, &querier, q)).collect();
-    let reads: Vec<String> = node
-        .reads
-        .iter()
-        .map(|r| match r {
+    let do_read = |storage: &dyn Storage, r: &ReadOp| -> String {
+        match r {
             ReadOp::Get(k) => match storage.get(&names.key(k)) {
                 Some(v) => hex(&v),
                 None => "none".to_string(),
@@ -190,10 +209,20 @@ pub fn run_node<C: MakeCustom, Q: MakeCustomQuery>(
                 let order = if *desc { Order::Descending } else { Order::Ascending };
                 storage.range_values(start.as_deref(), end.as_deref(), order).map(|k| hex(&k)).collect::<Vec<_>>().join(",")
             }
-        })
-        .collect();
+        }
+    };
+    let reads: Vec<String> = node.reads.iter().map(|r| do_read(&*storage, r)).collect();
 
-    // 3. invocation record (out of band: survives any rollback)
+    // 3. scripted writes, then reads through the same view (what the contract itself reads back)
+    for w in &node.writes {
+        match w {
+            WriteOp::Set { k, v } => storage.set(&names.key(k), v),
+            WriteOp::Remove { k } => storage.remove(&names.key(k)),
+        }
+    }
+    let post_reads: Vec<String> = node.post_reads.iter().map(|r| do_read(&*storage, r)).collect();
+
+    // 4. invocation record (out of band: survives any rollback)
     world.0.borrow_mut().trace.push(TraceRec {
         kind: kind.to_string(),
         code_tag,
@@ -207,15 +236,8 @@ pub fn run_node<C: MakeCustom, Q: MakeCustomQuery>(
         reply,
         queries,
         reads,
+        post_reads,
     });
-
-    // 4. scripted writes
-    for w in &node.writes {
-        match w {
-            WriteOp::Set { k, v } => storage.set(&names.key(k), v),
-            WriteOp::Remove { k } => storage.remove(&names.key(k)),
-        }
-    }
 
     // 5. the injected fault: body error after the writes
     if node.fail {
@@ -315,7 +337,7 @@ impl Contract<SimMsg, SimQuery> for SimContract {
     fn query(&self, deps: Deps<SimQuery>, env: Env, msg: Vec<u8>) -> AnyResult<Binary> {
         let q: SmartQ = serde_json::from_slice(&msg)?;
         self.world.0.borrow_mut().query_calls += 1;
-        Ok(run_query_entry(deps.storage, &env, &q))
+        Ok(run_query_entry(deps.storage, &deps.querier, &env, &q))
     }
     fn sudo(&self, deps: DepsMut<SimQuery>, env: Env, msg: Vec<u8>) -> AnyResult<Response<SimMsg>> {
         let node = parse_node(&msg)?;
@@ -347,7 +369,7 @@ fn g_inst<C: MakeCustom, Q: MakeCustomQuery, const TAG: u32>(deps: DepsMut<Q>, e
 }
 fn g_query<Q: MakeCustomQuery, const TAG: u32>(deps: Deps<Q>, env: Env, q: SmartQ) -> Result<Binary, StdError> {
     current_world().0.borrow_mut().query_calls += 1;
-    Ok(run_query_entry(deps.storage, &env, &q))
+    Ok(run_query_entry(deps.storage, &deps.querier, &env, &q))
 }
 fn g_sudo<C: MakeCustom, Q: MakeCustomQuery, const TAG: u32>(deps: DepsMut<Q>, env: Env, node: Node) -> Result<Response<C>, StdError> {
     run_node(&current_world(), TAG, "sudo", deps.storage, deps.querier, &env, String::new(), vec![], &node, None)
@@ -436,20 +458,30 @@ pub fn effective_kind(kind: CodeKind, tag: u32) -> CodeKind {
 }
 
 /// Adversarial address generator (plugged in through WasmKeeper::with_address_generator in a share
-/// of the runs): instantiations come in groups of three that share one canonical address — the
+/// of the runs): instantiations come in groups of four that share one canonical address — the
 /// first gets the lower-case bech32 string, the second the very same string in upper case (a
-/// different address that differs only in letter case), the third (for odd code ids) the first
-/// one's address again, which must be rejected as a duplicate. Salted addresses stay the default.
+/// different address that differs only in letter case), the third the first string with its last
+/// byte incremented, the fourth (for odd code ids) the first one's address again, which must be
+/// rejected as a duplicate. Salted addresses stay the default.
 pub struct AdvAddrGen;
 
 pub fn adv_address(api: &dyn cosmwasm_std::Api, code_id: u64, instance_id: u64) -> AnyResult<cosmwasm_std::Addr> {
     use sha2::{Digest, Sha256};
-    let group = instance_id / 3;
+    let group = instance_id / 4;
     let canon = |tag: &str, n: u64| -> Vec<u8> { Sha256::digest(format!("{}-{}", tag, n).as_bytes()).to_vec() };
     let base = api.addr_humanize(&cosmwasm_std::CanonicalAddr::from(canon("adversarial", group)))?;
-    Ok(match instance_id % 3 {
+    Ok(match instance_id % 4 {
         0 => base,
         1 => cosmwasm_std::Addr::unchecked(base.as_str().to_uppercase()),
+        2 => {
+            // the "successor" of the first address: same bytes, last one incremented (the raw prefix of
+            // its storage namespace is exactly the exclusive end of the first one's)
+            let mut b = base.as_str().as_bytes().to_vec();
+            if let Some(l) = b.last_mut() {
+                *l += 1;
+            }
+            cosmwasm_std::Addr::unchecked(String::from_utf8_lossy(&b).to_string())
+        }
         _ => {
             if code_id % 2 == 1 {
                 base
